@@ -261,18 +261,20 @@ Definition sc_of (f : string) : option (val -> val -> res) :=
   if fis f "eval_dyad_integer_divide" then Some sc_idiv else
   if fis f "eval_dyad_less" then Some sc_less else
   if fis f "eval_dyad_more" then Some sc_more else
-  if fis f "eval_dyad_equal" then Some sc_equal else None.
+  if fis f "eval_dyad_equal" then Some sc_equal else
+  if fis f "eval_dyad_power" then Some sc_pow else None.
 
 (* the domain of the scalar function, from the reference text of the verb *)
 Definition scdom_of (f : string) : val -> val -> bool :=
   if (fis f "eval_dyad_remainder") || (fis f "eval_dyad_integer_divide") then both_int_nz else
   if (fis f "eval_dyad_less") || (fis f "eval_dyad_more") || (fis f "eval_dyad_equal") then same_kind else
-  if fis f "eval_dyad_divide" then (fun a b => both_num a b && negb (is_zero b)) else
+  if fis f "eval_dyad_power" then
+    (fun a b => match a, b with VI x, VI y => (0 <=? y) && (Z.abs (x ^ y) <? 2 ^ 53) | _, _ => false end) else
   both_num.
 
 Definition via_vec2 (f : string) : bool :=
   (fis f "eval_dyad_integer_divide") || (fis f "eval_dyad_less") || (fis f "eval_dyad_more") || (fis f "eval_dyad_equal") ||
-  (fis f "eval_dyad_minimum") || (fis f "eval_dyad_maximum") || (fis f "eval_dyad_remainder").
+  (fis f "eval_dyad_minimum") || (fis f "eval_dyad_maximum") || (fis f "eval_dyad_remainder") || (fis f "eval_dyad_power").
 Definition no_object_loop (f : string) : bool := false.
 
 Definition is_list_or_str (b : val) : bool := match b with VL _ | VS _ => true | _ => false end.
@@ -284,6 +286,34 @@ Definition sizes_ok (a : val) : bool :=
   end.
 Definition zints (a : val) : list Z :=
   match ints_of (members a) with Some zs => zs | None => [] end.
+
+(* Index-in-Depth / Amend-in-Depth: one index per level *)
+Fixpoint s_path (a : val) (path : list Z) : val :=
+  match path with
+  | [] => a
+  | i :: r => s_path (ix VU (members a) i) r
+  end.
+Definition s_set {A} (l : list A) (i : Z) (x : A) : list A :=
+  map (fun k => if Z.of_nat k =? i then x else nth k l x) (seq 0 (List.length l)).
+Fixpoint s_set_path (a : val) (path : list Z) (v : val) : val :=
+  match path with
+  | [] => v
+  | i :: r => VL (s_set (members a) i (s_set_path (ix VU (members a) i) r v))
+  end.
+Fixpoint path_ok (a : val) (path : list Z) : bool :=
+  match path with
+  | [] => negb (is_arr a)
+  | i :: r => match a with VL l => (0 <=? i) && (i <? zlen l) && path_ok (ix VU l i) r | _ => false end
+  end.
+(* Amend: the members at the given positions replaced by v; for a string and a string v every substring starting there *)
+Definition s_amend_list (l : list val) (v : val) (idx : list Z) : list val :=
+  map (fun k => if existsb (Z.eqb (Z.of_nat k)) idx then v else nth k l VU) (seq 0 (List.length l)).
+Fixpoint s_amend_str (s : list Z) (v : list Z) (idx : list Z) : list Z :=
+  match idx with
+  | [] => s
+  | i :: r => s_amend_str (map (fun k => if (i <=? Z.of_nat k) && (Z.of_nat k <? i + zlen v) then ix 0 v (Z.of_nat k - i) else nth k s 0)
+                               (seq 0 (List.length s))) v r
+  end.
 
 Definition s_dyad (f : string) (a b : val) : res :=
   match sc_of f with
@@ -346,6 +376,16 @@ Definition s_dyad (f : string) (a b : val) : res :=
     | _, _ => Err
     end else
   if fis f "eval_dyad_match" then Ok (b2v (s_same a b)) else
+  if fis f "eval_dyad_index_in_depth" then
+    (match b with VI i => Ok (ix VU (members a) i) | _ => Ok (s_path a (zints b)) end) else
+  if fis f "eval_dyad_amend_in_depth" then
+    (match b with VL (v :: idx) => Ok (s_set_path a (zints (VL idx)) v) | _ => Err end) else
+  if fis f "eval_dyad_amend" then
+    (match a, b with
+     | VL l, VL (v :: idx) => Ok (VL (s_amend_list l v (zints (VL idx))))
+     | VS s, VL (VC c :: idx) => Ok (VS (s_amend_str s [c] (zints (VL idx))))
+     | VS s, VL (VS t :: idx) => Ok (VS (s_amend_str s t (zints (VL idx))))
+     | _, _ => Err end) else
   if fis f "eval_dyad_reshape" then
     let shape := zints a in
     match b with
@@ -389,7 +429,8 @@ Definition dom_dyad (f : string) (a b : val) : bool :=
   match sc_of f with
   | Some _ =>
       conformable a b &&
-      (all_pairs (scdom_of f) a b ||
+      ((all_pairs (scdom_of f) a b &&
+        (negb (fis f "eval_dyad_divide") || all_leaves (fun y => is_num y && negb (is_zero y)) b)) ||
        ((fis f "eval_dyad_divide") && negb (is_arr a) && negb (is_arr b) && both_num a b) ||
        ((fis f "eval_dyad_integer_divide") && negb (is_arr a) && negb (is_arr b) && is_int a && is_int b))
   | None =>
@@ -426,6 +467,26 @@ Definition dom_dyad (f : string) (a b : val) : bool :=
     | _, _ => false
     end else
   if fis f "eval_dyad_match" then match_kinds_ok a b && negb (k_close a b) else
+  if fis f "eval_dyad_index_in_depth" then
+    (match a, b with
+     | VL l, VI i => (npdepth a =? 1)%nat && (0 <=? i) && (i <? zlen l)
+     | VL l, VL (x :: r) => is_rect a && (npdepth b =? 1)%nat && forallb is_int (x :: r) &&
+                            (List.length (x :: r) =? npdepth a)%nat && path_ok a (zints b)
+     | _, _ => false end) else
+  if fis f "eval_dyad_amend_in_depth" then
+    (match a, b with
+     | VL l, VL (v :: x :: r) => is_rect a && (npdepth b =? 1)%nat && negb (is_arr v) && forallb is_int (x :: r) &&
+                                 (List.length (x :: r) =? npdepth a)%nat && path_ok a (zints (VL (x :: r)))
+     | _, _ => false end) else
+  if fis f "eval_dyad_amend" then
+    (match a, b with
+     | VL l, VL (v :: x :: r) => (npdepth a <=? 1)%nat && (npdepth b =? 1)%nat &&
+                                 forallb (fun y => match y with VI i => (0 <=? i) && (i <? zlen l) | _ => false end) (x :: r)
+     | VS s, VL (VC _ :: x :: r) => (npdepth b =? 1)%nat &&
+                                 forallb (fun y => match y with VI i => (0 <=? i) && (i <? zlen s) | _ => false end) (x :: r)
+     | VS s, VL (VS t :: x :: r) => (npdepth b =? 1)%nat &&
+                                 forallb (fun y => match y with VI i => (0 <=? i) && (i + zlen t <=? zlen s) | _ => false end) (x :: r)
+     | _, _ => false end) else
   if fis f "eval_dyad_reshape" then
     match b with
     | VS s => shape_ok a (zlen s) && (negb (zlen s =? 0)) && (List.length (zints a) <=? 2)%nat
@@ -438,10 +499,20 @@ Definition dom_dyad (f : string) (a b : val) : bool :=
   end.
 
 (* known-finding classes: "" = none *)
+(* structural equality of binary64 values *)
+Definition real_eqb (x y : real) : bool :=
+  match x, y with
+  | S754_zero s, S754_zero t => Bool.eqb s t
+  | S754_infinity s, S754_infinity t => Bool.eqb s t
+  | S754_nan, S754_nan => true
+  | S754_finite s m e, S754_finite t n f => Bool.eqb s t && Pos.eqb m n && (e =? f)
+  | _, _ => false
+  end.
+
 Fixpoint val_eqb (a b : val) {struct a} : bool :=
   match a, b with
   | VI x, VI y => x =? y
-  | VR x, VR y => bits_of_real x =? bits_of_real y
+  | VR x, VR y => real_eqb x y
   | VC x, VC y => x =? y
   | VS s, VS t => zs_eqb s t
   | VY s, VY t => zs_eqb s t
@@ -475,6 +546,13 @@ Definition k_dyad (f : string) (a b : val) : string :=
     (if negb (res_normal (s_dyad f a b)) then "homogenise" else "") else
   if fis f "eval_dyad_at_index" then (if negb (res_normal (s_dyad f a b)) then "homogenise" else "") else
   if fis f "eval_dyad_match" then "" else
+  if (fis f "eval_dyad_amend") || (fis f "eval_dyad_amend_in_depth") then
+    (* numpy.put / item assignment cast the new value to the dtype of a numeric array *)
+    (match b with
+     | VL (v :: _) => if is_rect a && negb (match v, has_real a with VI _, false | VR _, true => true | _, _ => false end)
+                         && negb ((fis f "eval_dyad_amend_in_depth") && is_strlike v)
+                      then "amend-cast" else if negb (res_normal (s_dyad f a b)) then "homogenise" else ""
+     | _ => "" end) else
   if fis f "eval_dyad_find" then
     (match a, b with
      | VL l, VL _ => ""
@@ -484,7 +562,7 @@ Definition k_dyad (f : string) (a b : val) : string :=
     (match b with
      | VY _ => if reshape_guards_symbols then "" else "reshape-symbol"
      | VC _ => ""
-     | VL l => if existsb is_arr l then "reshape-nested" else ""
+     | VL l => ""
      | _ => "" end) else
   ""
   end.
